@@ -13,3 +13,6 @@ func verifHook(event string, size int, id uintptr) {
 		h(event, size, id)
 	}
 }
+
+// verifEnabled is true in builds with the verification hooks.
+const verifEnabled = true
